@@ -152,6 +152,11 @@ pub(crate) fn serialize_text<'a, N: Normalizer>(
                 }
                 result.push('>');
             }
+            '\r' => {
+                // a literal CR would be normalized to LF when parsed back
+                change = true;
+                result.push_str("&#xD;")
+            }
             _ => result.push(c),
         }
     }
